@@ -12,11 +12,13 @@ Driver module "c01": a whole history on one metric in one request line.
                                                      arg  b:<u64> | h:<state> | `,`-list of h:k~h:v / h:k~N | `-`
                    remove/<args>
                    clear
+                   mutate/<info|states|buckets>      the CALLER mutates an object it passed earlier (no library call)
      pyval       sh:<hex> | i<int> | bT | bF | N | fh:<hex of str(x)> | th:<hex of str(tuple)> | lh:<hex of str(list)>
 
   reply:  ok <model observations> <spec observations>       (`;`-list, one per step, step 0 = after construction)
           err <class>                                        (the constructor raised)
-     observation   <ok|class>@<samples>     samples `,`-list of h:<name>!<labels>!b:<u64>, labels `+`-list of h:k=h:v
+     observation   <ok|class|Aliased>@<samples>   (Aliased: the model cannot follow a caller-side mutation, see afterCallerMutation)
+                   <ok|class>@<samples>     samples `,`-list of h:<name>!<labels>!b:<u64>, labels `+`-list of h:k=h:v
 -/
 import PromVerif.Py.Wire
 import PromVerif.Model.Metrics
@@ -102,6 +104,18 @@ def decOp (f : String) : Option (Op Float) :=
   | ["clear"] => some (.clear 0)
   | _ => none
 
+/-- a step of a history: a library call, or a caller-side mutation of an object passed earlier -/
+inductive DOp
+  | op (o : Op Float)
+  | mut (c : CallerObject)
+
+def decDOp (f : String) : Option DOp :=
+  match f with
+  | "mutate/info" => some (.mut .infoDict)
+  | "mutate/states" => some (.mut .states)
+  | "mutate/buckets" => some (.mut .buckets)
+  | _ => (decOp f).map DOp.op
+
 def decKind (kind extra : String) : Option (Kind Float) :=
   match kind with
   | "counter" => some .counter
@@ -126,23 +140,29 @@ def encObs (o : Out) (fams : List (List (Sample Float))) : String :=
   encOut o ++ "@" ++ (if ss.isEmpty then "." else ",".intercalate (ss.map encSample))
 
 /-- model observation after every step -/
-def runModel (r : Reg Float) : List (Op Float) → List String
+def runModel (r : Reg Float) : List DOp → List String
   | [] => []
-  | op :: ops =>
+  | .op op :: ops =>
     let x := step r op
     encObs x.2 (collect x.1) :: runModel x.1 ops
+  | .mut c :: ops =>
+    match afterCallerMutation r c with
+    | some r' => encObs .ok (collect r') :: runModel r' ops
+    | none => ("Aliased@" ++ ((encObs .ok (collect r)).splitOn "@").getLast!) :: runModel r ops
 
-/-- spec observation after every step: the reference evaluated on the accepted prefix -/
-def runSpec (decls : List (Decl Float)) (r : Reg Float) (acc : List (Op Float)) : List (Op Float) → List String
+/-- spec observation after every step: the reference evaluated on the accepted prefix (a caller-side mutation is no
+call: it contributes nothing) -/
+def runSpec (decls : List (Decl Float)) (r : Reg Float) (acc : List (Op Float)) : List DOp → List String
   | [] => []
-  | op :: ops =>
+  | .op op :: ops =>
     let x := step r op
     let acc' := acc ++ (acceptedOp r op).toList
     encObs x.2 (Spec.Metrics.collect decls acc') :: runSpec decls x.1 acc' ops
+  | .mut _ :: ops => encObs .ok (Spec.Metrics.collect decls acc) :: runSpec decls r acc ops
 
 def handle : List String → String
   | ["run", legacy, kind, name, lns, extra, ops] =>
-    match decKind kind extra, decText name, (splitList "," lns).mapM decText, (splitList ";" ops).mapM decOp with
+    match decKind kind extra, decText name, (splitList "," lns).mapM decText, (splitList ";" ops).mapM decDOp with
     | some k, some nm, some labelnames, some ops =>
       match construct (legacy == "1") ⟨nm, k, labelnames⟩ with
       | .error e => "err " ++ e.name
